@@ -44,7 +44,7 @@ def skel_table(skel, name, concrete):
                     out.append('sub|%s|%s' % (it['self'], m.group(1)))
                 continue
             m = mt.match(it['self'])
-            if m and m.group(1) != 'S':
+            if m and 'S' not in it['generics']:
                 st = m.group(1)
                 for f in it['fns']:
                     if 'name' not in f:
